@@ -133,6 +133,12 @@ def norm_case(case):
         walk(s['body'])
   for u in case['units']:
     walk(u)
+  if case.get('_prereg_lists'):
+    case['_prereg_lists'] = {str(name_to_id(k) if ':' in str(k) else int(k)): v for k, v in case['_prereg_lists'].items()}
+  if case.get('_prereg'):
+    case['_prereg'] = [name_to_id(k) if isinstance(k, str) else k for k in case['_prereg']]
+  if case.get('_prog'):
+    case['_prog'] = [[name_to_id(o) if isinstance(o, str) else o, a, v] for o, a, v in case['_prog']]
   return case
 
 
@@ -146,6 +152,7 @@ def resolve_path(w, symtab, path):
   return o
 
 
+LISTS = {}  # per case: object id -> ('deny' | 'allow', [parameter names]) for objects registered from Python with a list
 VIA = {}   # per case: method function -> the class it is addressed through (gin ties a method to one class)
 
 
@@ -241,6 +248,21 @@ def gen_file(rng, w, depth, outer_syms, earlier_syms):
     if arg is None:
       continue
     st = {'k': 'bind', 'sel': sel, 'arg': arg, 'v': rng.randint(1, 99), '_target': t}
+    if t in LISTS and ((arg in LISTS[t][1]) == (LISTS[t][0] == 'deny')):
+      # the object was registered from Python with a deny list naming this parameter (or an allow list that does not):
+      # not bindable, whatever was configured before — e.g. one of its methods, which registers the class again
+      if t in CLASS_IDS(w) and rng.random() < 0.6:
+        attrs = dict((k, dict(v)) for k, v in w['attrs'])
+        meths = [(n, f) for n, f in sorted(attrs.get(t, {}).items()) if f in params and f not in CLASS_IDS(w) and params[f]
+                 and VIA.get(f, t) == t]
+        if meths:
+          n, f = rng.choice(meths)
+          VIA.setdefault(f, t)
+          stmts.append({'k': 'bind', 'sel': sel + [n], 'arg': rng.choice(params[f]), 'v': rng.randint(1, 99), '_target': f,
+                        '_class': t, '_method': n})
+      st['_expect'] = 'ValueError'
+      stmts.append(st)
+      return stmts
     cls_id = resolve_path(w, symtab, sel[:-1])
     if cls_id in CLASS_IDS(w) and t not in CLASS_IDS(w):   # a method (function) spelled through its class
       st['_class'] = cls_id
@@ -277,7 +299,9 @@ def gen_file(rng, w, depth, outer_syms, earlier_syms):
       stmts.append(st)
       return stmts
     stmts.append(st)
-  if rng.random() < 0.15 and 'mm' not in symtab:
+  bindable = lambda o, a: o not in LISTS or ((a in LISTS[o][1]) != (LISTS[o][0] == 'deny'))   # noqa: E731
+  if rng.random() < 0.15 and 'mm' not in symtab and all(
+      bindable(name_to_id(m + ':shared'), 'a') for m in ('c19pkg.sub.m2', 'c19pkg.alt.m2')):
     # one selector text used before and after an import that re-binds its first component to another module
     a, b = rng.sample([['c19pkg', 'sub', 'm2'], ['c19pkg', 'alt', 'm2']], 2)
     forms = lambda m: rng.choice([{'k': 'imp', 'module': m, 'from': False, 'alias': 'mm'},   # noqa: E731
@@ -313,18 +337,12 @@ def any_expect(stmts):
 
 def gen_cases(rng, tier, boost=1):
   w, _ = get_world()
+  params = dict((k, v) for k, v in w['params'])
   for _ in range((500 if tier == 'quick' else 20000) * boost):
     units, earlier = [], {}
     VIA.clear()
-    for _u in range(rng.randint(1, 2)):
-      body = gen_file(rng, w, 0, {}, earlier)
-      units.append(body)
-      for s in body:
-        if s.get('k') == 'nop':
-          earlier = dict(earlier, **s['_symtab'])
-      if any_expect(body):
-        break
-    case = {'dom': 'dyn', 'units': units}
+    LISTS.clear()
+    prereg = None
     if rng.random() < 0.3:
       # some functions and classes (nested ones too) were registered from Python before any file is parsed:
       # nothing about names or bindings changes, and the config string still spells them by attribute path
@@ -335,10 +353,45 @@ def gen_cases(rng, tier, boost=1):
       for m in mods:
         direct |= set(attrs.get(m, {}).values())
       elig = sorted((direct - mods) | {c for c in classes})
-      case['_prereg'] = rng.sample(elig, rng.randint(1, min(3, len(elig))))
+      prereg = rng.sample(elig, rng.randint(1, min(3, len(elig))))
       inner = name_to_id('c19pkg.m1:Cls.Inner')
-      if rng.random() < 0.6 and inner not in case['_prereg']:
-        case['_prereg'].append(inner)   # a class nested in a class: its printed name is its attribute path
+      if rng.random() < 0.6 and inner not in prereg:
+        prereg.append(inner)   # a class nested in a class: its printed name is its attribute path
+      if rng.random() < 0.5:
+        # ... some of them with an allow or deny list, which dynamic registration must keep honouring
+        for o in prereg:
+          ps = params.get(o) or []
+          if ps and rng.random() < 0.7:
+            kind = rng.choice(['deny', 'deny', 'allow'])
+            names = rng.sample(ps, rng.randint(1, max(1, len(ps) - 1)))
+            LISTS[o] = (kind, sorted(names))
+    for _u in range(rng.randint(1, 2)):
+      body = gen_file(rng, w, 0, {}, earlier)
+      units.append(body)
+      for s in body:
+        if s.get('k') == 'nop':
+          earlier = dict(earlier, **s['_symtab'])
+      if any_expect(body):
+        break
+    case = {'dom': 'dyn', 'units': units}
+    if prereg is not None:
+      if rng.random() < 0.5 and not any(any_expect(u) for u in units):
+        # bindings made from Python after the files were parsed, on configurables no file needs to have imported:
+        # config_str() has to import their modules itself, under names that do not depend on the order of these calls
+        twins = [name_to_id('c19pkg.sub.m2:shared'), name_to_id('c19pkg.alt.m2:shared')]
+        if rng.random() < 0.6:
+          prereg += [t for t in twins if t not in prereg]
+        cands = [o for o in prereg if o not in CLASS_IDS(w) or True]
+        prog = []
+        for o in rng.sample(cands, min(len(cands), rng.randint(2, 4))):
+          ps = [a for a in (params.get(o) or []) if o not in LISTS or ((a in LISTS[o][1]) != (LISTS[o][0] == 'deny'))]
+          if ps:
+            prog.append([o, rng.choice(ps), rng.randint(100, 199)])
+        if prog:
+          case['_prog'] = prog
+      case['_prereg'] = prereg
+      if LISTS:
+        case['_prereg_lists'] = {str(o): list(v) for o, v in LISTS.items()}
     yield case
 
 
@@ -412,12 +465,54 @@ def skip_kw(case):
 
 def run_impl(case):
   norm_case(case)
+  res = _run_once(case, False)
+  if len(case.get('_prog') or []) >= 2 and res.get('err') is None:
+    res['config_str_rev'] = _run_once(case, True).get('config_str')   # the same bindings, made in the opposite order
+  return res
+
+
+def _stmt_json(st):
+  return {'k': 'imp', 'module': st.module.split('.'), 'from': bool(st.is_from), 'alias': st.alias}
+
+
+def _requirements(gin):
+  """[selector, import statement] for every configurable config_str() has to be able to name (any order)"""
+  cfgmod = gin.config
+  need = [cfgmod._REGISTRY[sel] for _, sel in cfgmod._CONFIG]  # pylint: disable=protected-access
+  need += [r.configurable for r in cfgmod.iterate_references(cfgmod._CONFIG)]  # pylint: disable=protected-access
+  out = []
+  for c in need:
+    if c.wrapped == cfgmod.macro:
+      continue
+    if c.import_source:
+      st = _stmt_json(c.import_source[0])
+    else:
+      mod = c.wrapped.__module__
+      st = {'k': 'imp', 'module': mod.split('.'), 'from': '.' in mod, 'alias': None}
+    out.append([c.selector.split('.'), st])
+  return out
+
+
+def _text_imports(text):
+  out = []
+  for line in text.split('\n'):
+    w = line.split()
+    if len(w) >= 2 and w[0] == 'import':
+      out.append([w[1].split('.'), False, w[3] if len(w) == 4 and w[2] == 'as' else None])
+    elif len(w) >= 4 and w[0] == 'from' and w[2] == 'import':
+      out.append([w[1].split('.') + [w[3]], True, w[5] if len(w) == 6 and w[4] == 'as' else None])
+  return out
+
+
+def _run_once(case, reverse_prog):
   gin = core.fresh_gin()
   w, objs = get_world()
   tmp = tempfile.mkdtemp(prefix='c19-')
   texts, err, err_msg = [], None, None
+  lists = case.get('_prereg_lists') or {}
   for i in case.get('_prereg', []):
-    gin.register(objs[i])
+    kind, names = lists.get(str(i), (None, None))
+    gin.register(objs[i], **({'denylist': list(names)} if kind == 'deny' else {'allowlist': list(names)} if kind == 'allow' else {}))
   try:
     counter = [0]
     for u in case['units']:
@@ -434,6 +529,10 @@ def run_impl(case):
         else:
           err = type(e).__name__
         break
+    if err is None:
+      prog = list(case.get('_prog') or [])
+      for o, a, v in (prog[::-1] if reverse_prog else prog):
+        gin.bind_parameter(f'{gin.config._inverse_lookup(objs[o]).selector}.{a}', v)  # pylint: disable=protected-access
     res = {'err': err, 'err_msg': err_msg, 'bindings': observe(gin, objs), 'texts': texts + counter[1:]}
     effects = []
     if err is None:
@@ -492,8 +591,10 @@ def run_impl(case):
     res['store_keys'] = keys
     if err is None:
       try:
+        res['reqs'] = _requirements(gin)
         text = gin.config_str()
         res['config_str'] = text
+        res['text_imports'] = _text_imports(text)
         gin.clear_config()
         gin.parse_config(text)
         res['roundtrip'] = observe(gin, objs)
@@ -517,8 +618,15 @@ def _strip(stmts):
 
 
 def to_driver(case, impl):
+  norm_case(case)
   w, _ = get_world()
-  return {'dom': 'dyn', 'world': w, 'units': [_strip(u) for u in case['units']], 'imlist': impl.get('imlist', []),
+  lists = case.get('_prereg_lists') or {}
+  if lists:
+    # the parameters a binding may name: the signature's, minus what the registration's lists exclude
+    w = dict(w, params=[[o, [p for p in ps if str(o) not in lists or ((p in lists[str(o)][1]) != (lists[str(o)][0] == 'deny'))]]
+                        for o, ps in w['params']])
+  return {'dom': 'dyn', 'world': w, 'units': [_strip(u) for u in case['units']], 'imlist': impl.get('imlist', []), 'reqs': impl.get('reqs', []),
+          'prog': case.get('_prog') or [],
           'skip': {k: v for k, v in (case.get('skip') or {'k': 'no'}).items() if not k.startswith('_')}}
 
 
@@ -535,6 +643,11 @@ def compare(case, impl, model):
     return f'per-object bindings: implementation {impl["bindings"]}, model {_canon_model(model)}'
   if 'im' in impl and model.get('im') != impl['im']:
     return f'import manager: implementation {impl["im"]}, model {model.get("im")}'
+  if impl.get('text_imports') is not None and impl.get('imlist') and isinstance(model.get('im_req'), dict):
+    # the import lines config_str() printed = the model's manager after serving the requirements in selector order
+    want = sorted(model['im_req']['imports'], key=lambda i: (i[0][0] != '__gin__', '.'.join(i[0])))
+    if impl['text_imports'] != want:
+      return f'import lines of config_str(): {impl["text_imports"]}, model {want}'
   return None
 
 
@@ -562,6 +675,9 @@ def intended(case):
     walk(u)
     if err[0]:
       break
+  if not err[0]:
+    for o, a, v in case.get('_prog') or []:
+      b.setdefault(o, {})[a] = v
   return sorted([o, sorted([a, v] for a, v in kv.items())] for o, kv in b.items()), err[0]
 
 
@@ -576,6 +692,9 @@ def oracle(case, impl):
   why = method_effects(case, impl)
   if why:
     return why
+  if 'config_str_rev' in impl and impl.get('config_str') != impl['config_str_rev']:
+    return ('config_str() depends on the order in which the bindings were made (same calls, opposite order):\n'
+            f'{impl.get("config_str")}\n--- versus ---\n{impl["config_str_rev"]}')
   if impl.get('im_names_distinct') is False:
     return f'the import manager binds one name twice: {impl["im"]["imports"]}'
   def representable(rows):   # a placeholder for an unknown reference has no literal form: the text omits it
